@@ -236,7 +236,8 @@ def make_case(case, ctx):
                         edge_updates.append([e[0], e[1], {rnd.choice(tkeys): round(vals.new() * 2 + 0.25, 4)}])
                         kinds.append('edge_template_constant_updates')
                     else:
-                        edge_updates.append([e[0], e[1], {'weight': round(vals.new() * 2, 4)}])
+                        # (mostly unique values; sometimes the unit gains +1.0 / -1.0, for which generated code omits the multiplication)
+                        edge_updates.append([e[0], e[1], {'weight': round(vals.new() * 2, 4) if rnd.random() < 0.75 else rnd.choice([-1.0, -1.0, 1.0])}])
                     kinds.append('edge_updates')
         if not [k_ for k_ in kinds if k_ != 'int_declared_constants']:
             continue
